@@ -64,6 +64,34 @@ func runMBDecision(c *core.Ctx) {
 			bools: []string{"err==nil#1", "err==nil#2"}, ref: func(a dtAtoms) bool { return a.B("err==nil#1") && a.B("err==nil#2") }},
 		{fn: "relaxedMailboxesRemote.WriteValue", key: "marks-sent-after-successful-encode", occ: true, why: "the section counts as having sent only when the message went out", find: storeFieldConst("hasSent", true),
 			bools: []string{"err==nil#1", "err==nil#2"}, ref: func(a dtAtoms) bool { return a.B("err==nil#1") && a.B("err==nil#2") }},
+		{fn: "relaxedMailboxesRemote.WriteValue", key: "encodes-the-message", occ: true, why: "the written value is actually put on the wire once the connection is up", find: func(info *types.Info, n ast.Node) bool {
+			call, ok := n.(*ast.CallExpr)
+			if !ok || len(call.Args) != 1 {
+				return false
+			}
+			f := an.CalleeFunc(info, call)
+			if f == nil || f.Name() != "Encode" {
+				return false
+			}
+			u, ok := an.Unparen(call.Args[0]).(*ast.UnaryExpr)
+			return ok && u.Op == token.AND
+		}, bools: []string{"err==nil#1", "err==nil#2"}, ref: func(a dtAtoms) bool { return a.B("err==nil#1") }},
+		{fn: "readWriterConnTimeout.Write", key: "writes-through", occ: true, why: "the timed writer writes the data to the connection exactly when arming the deadline succeeded", find: func(info *types.Info, n ast.Node) bool {
+			call, ok := n.(*ast.CallExpr)
+			if !ok {
+				return false
+			}
+			f := an.CalleeFunc(info, call)
+			return f != nil && f.Name() == "Write" && len(call.Args) == 1
+		}, bools: []string{"deadlineErr==nil#1", "deadlineErr==nil#2"}, ref: func(a dtAtoms) bool { return a.B("deadlineErr==nil#1") }},
+		{fn: "readWriterConnTimeout.Read", key: "reads-through", occ: true, why: "the timed reader reads from the connection exactly when arming the deadline succeeded", find: func(info *types.Info, n ast.Node) bool {
+			call, ok := n.(*ast.CallExpr)
+			if !ok {
+				return false
+			}
+			f := an.CalleeFunc(info, call)
+			return f != nil && f.Name() == "Read" && len(call.Args) == 1
+		}, bools: []string{"deadlineErr==nil#1", "deadlineErr==nil#2"}, ref: func(a dtAtoms) bool { return a.B("deadlineErr==nil#1") }},
 		{fn: "relaxedMailboxesRemote.Commit", key: "forgets-sent", why: "the next section starts unsent", find: storeFieldConst("hasSent", false), ref: func(a dtAtoms) bool { return true }},
 		{fn: "relaxedMailboxesLocal.ReadValue", key: "backlog-first", why: "redelivered messages are served before new ones", find: backlogPop, ints: map[string]string{"len($.readBacklog)": ""},
 			ref: func(a dtAtoms) bool { return a.I("len($.readBacklog)") > 0 }},
